@@ -128,7 +128,8 @@ InverseLk(N) == {<<"Inverse", i, Det(N, i)>> : i \in {j \in DOMAIN N.items :
 \* the declarations of the emitted text, harvested independently of the look-ups
 TextValid(K, N) == {<<"TextValid", k, <<N.spaces[k].sec>> >> : k \in {s \in DOMAIN N.text :
                 \E q \in DOMAIN N.text[s].names :
-                   LET n == N.text[s].names[q] IN ~ValidName(N.lang, SecVar(N.spaces[s].sec), n) \/ Key(N.lang, n) \in K}}
+                   LET n == N.text[s].names[q]
+                   IN n \notin Builtin(N, s) /\ (~ValidName(N.lang, SecVar(N.spaces[s].sec), n) \/ Key(N.lang, n) \in K)}}
 DupKeys(N, s) == {Key(N.lang, N.text[s].names[q]) : q \in {r \in DOMAIN N.text[s].names :
                     \E t \in DOMAIN N.text[s].names : t < r /\ Key(N.lang, N.text[s].names[t]) = Key(N.lang, N.text[s].names[r])}}
 TextDistinct(N) == {<<"TextDistinct", k,
